@@ -1034,9 +1034,7 @@ class sptensor:
             return C
 
         if isinstance(other, ttb.tensor):
-            BB = sptensor(self.subs, other[self.subs][:, None], self.shape)
-            C = self.logical_and(BB)
-            return C
+            return self.logical_and(other.to_sptensor())
 
         # Otherwise
         assert False, "The arguments must be two sptensors or an sptensor and a scalar."
@@ -2679,13 +2677,13 @@ class sptensor:
         if isinstance(other, ttb.tensor):
             # Find where their zeros interact
             otherzerosubs, _ = (other == 0).find()
-            zzerosubs = otherzerosubs[(self[otherzerosubs] == 0).transpose()[0], :]
+            zzerosubs = otherzerosubs[np.reshape(self[otherzerosubs] == 0, (-1,)), :]
 
             # Find where their nonzeros intersect
             znzsubs = np.empty(shape=(0, other.ndims), dtype=int)
             if self.nnz > 0:
-                othervals = other[self.subs]
-                znzsubs = self.subs[(othervals[:, None] == self.vals).transpose()[0], :]
+                othervals = np.reshape(other[self.subs], (-1, 1))
+                znzsubs = self.subs[(othervals == self.vals).transpose()[0], :]
 
             return sptensor(
                 np.vstack((zzerosubs, znzsubs)),
@@ -2961,6 +2959,8 @@ class sptensor:
         empty sparse tensor of shape (2, 2) with order F
         """
         if isinstance(other, (float, int, np.number)):
+            if other == 0:
+                return ttb.sptensor(shape=self.shape)
             return ttb.sptensor(self.subs, self.vals * other, self.shape)
 
         if (
@@ -2979,9 +2979,12 @@ class sptensor:
                 self.shape,
             )
         if isinstance(other, ttb.tensor):
+            if self.nnz == 0:
+                return self.copy()
             csubs = self.subs
-            cvals = self.vals * other[csubs][:, None]
-            return ttb.sptensor(csubs, cvals, self.shape)
+            cvals = self.vals * np.reshape(other[csubs], (-1, 1))
+            keep = cvals[:, 0] != 0
+            return ttb.sptensor(csubs[keep], cvals[keep], self.shape)
         if isinstance(other, ttb.ktensor):
             csubs = self.subs
             cvals = np.zeros(self.vals.shape)
@@ -3356,8 +3359,10 @@ class sptensor:
             return ttb.sptensor(newsubs, newvals, self.shape)
 
         if isinstance(other, ttb.tensor):
+            if self.nnz == 0:
+                return self.copy()
             csubs = self.subs
-            cvals = self.vals / other[csubs][:, None]
+            cvals = self.vals / np.reshape(other[csubs], (-1, 1))
             return ttb.sptensor(csubs, cvals, self.shape)
         if isinstance(other, ttb.ktensor):
             # TODO consider removing epsilon and generating nans consistent with above
